@@ -457,7 +457,12 @@ def run_check(pid, tier, seed, scratch, t0):
             violations.append(f)
 
     failed_ids = sorted(set(f['id'] for f in all_fail))
-    discharged = max(0, obligations - len(failed_ids))
+    known_ids = sorted(set(f['id'] for f, _ in known_hits))
+    # obligations listed as known findings are reported separately (KNOWN-FINDING lines, coverage.known_findings);
+    # `obligations` counts the ones this tree is expected to discharge
+    obligations_total = obligations
+    obligations = max(0, obligations - len(known_ids))
+    discharged = max(0, obligations - len([i for i in failed_ids if i not in known_ids]))
     wall = time.time() - t0
     samples = []
     for uname, r in results.items():
@@ -491,6 +496,8 @@ def run_check(pid, tier, seed, scratch, t0):
             'unit_wall_s': {u: round(r['vr']['wall_s'], 2) for u, r in results.items()},
             'result_from_cache': {u: bool(r['vr'].get('cached')) for u, r in results.items()},
             'failed_obligations': failed_ids,
+            'obligations_including_known_findings': obligations_total,
+            'known_finding_obligations': known_ids,
             'known_findings': [h[1]['text'] for h in known_hits],
             'not_decided': pdef.get('not_decided', []),
             'canaries': {u: ('%d of %d vacuity canaries (assert(false) at function entry / loop body entry) failed as they must'
